@@ -27,6 +27,33 @@ CHECKS = {
         note="Trusted: the transcription of the operator table into HmsExpr.tla, the harness' renderer and tree "
              "normaliser. The range operator `..` is outside the property's table and not generated.",
         design="5/C07"),
+    "C01": dict(
+        technique="TLA+ small-step source semantics (HmsSem, CEK machine) run by TLC on every generated program; "
+                  "expected output/outcome replayed on the compiler+VM in isolated workers",
+        text="Programs are spec ASTs (operator x operand tables, scoping/sharing/snapshot/branch-value/call "
+             "templates, control nestings, seeded random well-typed programs). TLC executes HmsSem on each, checking "
+             "KontWellFormed, CleanExit, ExitsAreLexical, FatalNotCaught, OutputMonotone in every state, and exports "
+             "the host-visible output and outcome; the rendered source is analysed, compiled and run on the real VM "
+             "and must produce exactly that output and outcome.",
+        note="Trusted: HmsSem as the reading of the language description, the renderer, TLC. Integers < 2^30 and "
+             "dyadic floats only (64-bit boundaries: HmsInt64 family).",
+        design="5/C01"),
+    "C04": dict(
+        technique="TLA+ source semantics (HmsSem) as common oracle for both backends plus direct VM/interpreter "
+                  "cross comparison on every generated program",
+        text="Every program of the C01 families runs on the tree-walking interpreter and on the VM; each must match "
+             "HmsSem's observation and the two observations (text, outcome class, message, fatal kind) must be equal.",
+        note="Shared fragment only (no spawn / trigger / any-object member operators).",
+        design="5/C04"),
+    "C11": dict(
+        technique="TLA+ source semantics (HmsSem: BreakUnwind/ContinueUnwind/ReturnUnwind/ThrowUnwind/FatalStop) on "
+                  "exhaustively enumerated control nestings, replayed on both backends",
+        text="All legal nestings (depth <= 2 quick / 3 thorough) of loop, while, for, block, if, match arm, match "
+             "default, try, catch, call around break/continue/return/throw/fatal, each with marker output, a second "
+             "use of locals/try/loop and two endings (normal, final uncaught throw that a stale handler would "
+             "catch). TLC computes the exact expected output and outcome; VM and interpreter must reproduce it.",
+        note="Trusted: HmsSem, renderer. 9244 programs x 2 backends in the thorough tier.",
+        design="5/C11"),
 }
 
 NOT_YET = {}
